@@ -1,6 +1,7 @@
 package main
 
 import (
+	"strings"
 	"bytes"
 	"context"
 	"fmt"
@@ -115,7 +116,14 @@ func runDisProg(args []*Sexp) *Sexp {
 	optimize := args[0].Atom == "opt"
 	eval := args[1].Atom == "eval"
 	var disabled []string
+	pre := map[string]bool{} // names (atoms written g<hex>) the host declares as globals before it disables them
 	for _, a := range args[2].List[1:] {
+		if strings.HasPrefix(a.Atom, "g") {
+			n := string(atomBytes(A(a.Atom[1:])))
+			pre[n] = true
+			disabled = append(disabled, n)
+			continue
+		}
 		disabled = append(disabled, string(atomBytes(a)))
 	}
 	src := atomBytes(args[3])
@@ -162,6 +170,11 @@ func runDisProg(args []*Sexp) *Sexp {
 		}
 	}()
 	st := ugo.NewSymbolTable()
+	for n := range pre {
+		if _, err := st.DefineGlobal(n); err != nil {
+			return L(A("harness-error"), A(sanitize(err.Error())))
+		}
+	}
 	st.DisableBuiltin(disabled...)
 	opts := ugo.CompilerOptions{ModuleMap: mm, SymbolTable: st, NoOptimize: !optimize}
 	refs := map[string]bool{}
